@@ -51,7 +51,8 @@ def gen_case(rng, size="m", named_p=0.3):
         if (a, n, amt, v) in seen:
             continue
         seen.add((a, n, amt, v))
-        txs.append({"acc": a, "nonce": n, "amount": amt, "variant": v})
+        # transactions of different sizes: proto size is about 110 bytes + pad
+        txs.append({"acc": a, "nonce": n, "amount": amt, "variant": v, "pad": rng.choice([0, 0, 0, 0, 150, 400, 1200, 4000])})
     if not txs:
         txs.append({"acc": 0, "nonce": init[0][0] + 1, "amount": 1, "variant": 0})
     cur = [list(x) for x in init]
@@ -98,7 +99,8 @@ def gen_case(rng, size="m", named_p=0.3):
             ops.append({"op": "evict", "accs": [a for a in range(k) if rng.random() < 0.5]})
         elif r < 0.92:
             # mostly the whole pool; sometimes a small block body budget (proto size of a tx here is about 110 bytes)
-            ops.append({"op": "get", "max": (1 << 30) if rng.random() < 0.7 else rng.choice([0, 100, 150, 250, 400, 700])})
+            ops.append({"op": "get", "max": (1 << 30) if rng.random() < 0.5 else
+                        rng.choice([0, 100, 150, 250, 400, 700]) + rng.choice([0, 0, 300, 600, 1500, 4500])})
         elif r < 0.96:
             ops.append({"op": "unconf", "accs": [rng.randrange(k) for _ in range(rng.randrange(1, 3))]})
         else:
